@@ -212,7 +212,10 @@ def run(ctx):  # noqa: C901
     for nm, arg in (("__is_states_valid", "states"), ("__is_probs_valid", "probs")):
         ok = all(any(x[0] == "stmt" and isinstance(x[1], ast.Expr) and isinstance(x[1].value, ast.Call) and unparse(x[1].value) == f"{nm}({arg})" for x in facts) for _, facts in res.returns)
         ctx.ob("R-GUARD", sh, f"{nm}({arg}) executed before the program is built", ok, "validated" if ok else f"`{nm}({arg})` no longer dominates the return")
-    okd = any(isinstance(n, ast.Assign) and unparse(n).replace(" ", "") == "probs=[1/len(states)]*len(states)" for n in walk_no_nested(sh.node))
-    ctx.ob("R-THREAD", sh, "default prior uniform", okd, "[1/len(states)]*len(states)" if okd else "default prior changed")
+    from .. import pmatch
+    fd = pmatch.find(sh.node, ["probs = [1 / len(states)] * len(states)", "probs = len(states) * [1 / len(states)]", "probs = [1 / _N] * _N", "probs = _N * [1 / _N]",
+                               "probs = np.ones(len(states)) / len(states)", "probs = np.full(len(states), 1 / len(states))"])
+    okd = pmatch.tri(fd, any(isinstance(n, ast.Assign) and isinstance(n.targets[0], ast.Name) and n.targets[0].id == "probs" for n in walk_no_nested(sh.node)))
+    ctx.ob("R-THREAD", sh, "default prior uniform", okd, "[1/n]*n" if okd else "no assignment of a default prior is left" if okd is False else "default prior assigned in an unrecognised form", required=okd is not None)
     r_live(ctx, sh, "dim")
     r_live(ctx, sh, "level")
